@@ -94,8 +94,26 @@ Theorem C19_crash_atomic : forall (f : fav) (cs : list chunk) (old : fs) (n : na
 Proof. exact crash_atomic. Qed.
 Print Assumptions C19_crash_atomic.
 
-(* NOT proved (kept as the full statement; validated by the check through trees with FAVH_FAV dropped on random
-   entries, predicate "roundtrip" = the returned tree is exactly the valid entries in order with counters = counts):
-   C19_cleanup : forall f f', cleanup f = Ok f' ->
-     entries f' = the entries of f whose attr has FAVH_FAV, recursively, in the same order /\
-     on every level NBoards/NLines/NFolders = number of boards/lines/folders, LineID = NLines, FolderID = NFolders. *)
+(* cleanup (rebuildFav when some entry lost FAVH_FAV) on EVERY tree with consistent counters - in particular every tree
+   the API scripts above produce, where Attr assignments drop FAVH_FAV anywhere: it does not panic, and in the result
+   - the entries are exactly the entries of f that have FAVH_FAV, recursively (an invalid folder goes with everything
+     below it), in the same order, with the same payloads (skel_items f = the valid entries of f with ids and counters
+     forgotten; skel_item = the same of one entry) and no invalid entry is left (need_rebuild = false);
+   - on every level NBoards/NLines/NFolders = the numbers of boards/lines/folders, LineID = NLines, FolderID = NFolders,
+     line and folder ids count 1, 2, ... in order (lvl z f'), so the result is well-formed (wf_fav f');
+   - FavNum is not touched (the code does not recompute it; the reload after the save does). *)
+Theorem C19_cleanup : forall (z : bool) (f : fav), lvl z f ->
+  exists f', cleanup f = Ok f' /\
+    map skel_item (snd f') = skel_items (snd f) /\ need_rebuild f' = false /\
+    lvl z f' /\ wf_fav f' /\ h_favnum (fst f') = h_favnum (fst f).
+Proof. exact cleanup_spec. Qed.
+Print Assumptions C19_cleanup.
+
+(* the hypothesis is needed: on a level whose real number of lines does not fit NLines (int8) the rebuild panics
+   (200 valid lines: slice bounds out of range) or silently drops every entry (256 valid lines). Such levels cannot be
+   built through the API (C19_api_trees_wellformed) but can be read from a crafted .fav. *)
+Theorem C19_cleanup_needs_consistent_counters :
+  rebuild (Hdr 200 0 0 0 0 0, ILine 0 0 :: repeat (ILine 1 0) 200) = Crash /\
+  exists f', rebuild (Hdr 256 0 0 0 0 0, ILine 0 0 :: repeat (ILine 1 0) 256) = Ok f' /\ snd f' = [].
+Proof. exact rebuild_needs_bounds. Qed.
+Print Assumptions C19_cleanup_needs_consistent_counters.
